@@ -185,6 +185,29 @@ fn judge(rep: &mut Report, case: &str, fails: &[bool], o: &Outcome) {
     if o.flag_pending_left != 0 { rep.oracle_fail(case.to_string(), format!("{} commits left pending at quiescence", o.flag_pending_left), "gc:pending-left".into()); }
 }
 
+/// `forced fails=[false, true] sched=[0, 1, 0]`
+fn parse_forced(line: &str) -> Option<(Vec<bool>, Vec<usize>)> {
+    let rest = line.strip_prefix("forced ")?;
+    let f0 = rest.find("fails=[")? + 7;
+    let f1 = f0 + rest[f0..].find(']')?;
+    let s0 = rest.find("sched=[")? + 7;
+    let s1 = s0 + rest[s0..].find(']')?;
+    let mut fails = vec![];
+    for t in rest[f0..f1].split(',') {
+        match t.trim() { "true" => fails.push(true), "false" => fails.push(false), "" => {}, _ => return None }
+    }
+    let mut sched = vec![];
+    for t in rest[s0..s1].split(',') {
+        let t = t.trim();
+        if t.is_empty() { continue; }
+        let v: usize = t.parse().ok()?;
+        if v >= fails.len() { return None; }
+        sched.push(v);
+    }
+    if fails.len() < 2 || fails.len() > 8 { return None; }
+    Some((fails, sched))
+}
+
 pub fn run(ctx: &Ctx) -> Report {
     let mut rep = Report::new(
         "groupcommit",
@@ -206,6 +229,21 @@ pub fn run(ctx: &Ctx) -> Report {
         let before = rep.n_oracle_failures;
         judge(&mut rep, &case, &fails, &o);
         if rep.n_oracle_failures == before { rep.notes.push(format!("forced counterexample (fails={fails:?}) did NOT reproduce on the real code")); }
+    }
+    // corpus / replay lines: `forced fails=[false, true, ..] sched=[0, 1, ..]` (the forced prefix is
+    // followed by the seeded random scheduler until every committer has returned)
+    for line in ctx.corpus_cases("C37") {
+        match parse_forced(&line) {
+            Some((fails, fs)) => {
+                let o = run_case(ctx, &fails, Some(&fs), &mut rng, &mut model);
+                let case = format!("forced fails={:?} sched={:?}", fails, fs);
+                rep.case(Some(&case));
+                rep.count("corpus_cases");
+                rep.sample(format!("{case} -> results {:?} log {:?} logged_at_ack {:?}", o.results, o.log, o.logged_at_ack));
+                judge(&mut rep, &case, &fails, &o);
+            }
+            None => { if line.starts_with("forced ") { rep.notes.push(format!("unparsable corpus line: {line}")); } }
+        }
     }
     let ncases = if ctx.thorough { 4000 } else { 400 };
     for _ in 0..ncases {
